@@ -12,7 +12,7 @@ From Coq Require Import List ZArith NArith Bool.
 From Tele Require Import Gen.Consts Gen.GoFns Model.CounterConc Proofs.CounterWord Proofs.CounterInv Proofs.CounterThms Proofs.GoFnsCounter.
 From Tele Require Import Model.Register Proofs.RegisterFacts Proofs.CounterFault Proofs.CounterProgress Proofs.CounterMono.
 From Tele Require Import Model.CounterMulti Proofs.CounterMultiFacts.
-From Tele Require Proofs.CounterMultiCtl2.
+From Tele Require Proofs.CounterMultiCtl2 Proofs.CounterMultiCtl3.
 From Tele Require Import Proofs.CounterMultiCtl.
 Import ListNotations.
 Open Scope Z_scope.
@@ -479,6 +479,32 @@ Theorem C03_multi_invariant_partial2 : forall ms0 ts0 sched k, mgood ms0 ts0 -> 
   Forall (fun t => done_ok t = true) (snd (mrun sched (ms0, ts0))).
 Proof. exact CounterMultiCtl2.multi_inv_upto. Qed.
 Print Assumptions C03_multi_invariant_partial2.
+
+(* PARTIAL 3 (Proofs/CounterMultiCtl3.v): the second walk level, per thread.
+   The invariant `T3` of a thread is the base invariant CIb of its base view -
+   control popped, the own embedded thread replaced by a stand-in at LCas (CIb
+   looks at (pc, kind, prev, tgt) of the embedded threads only: `CIb_swap`) -
+   plus, while a nested walk is on the stack, `NW`: `wstate` over the virtual
+   family "m_nest j, or the own thread with its G program points mapped to
+   IvLoad / IvCas / RfLoad / CClose".  One step of a thread that satisfies T3
+   (shared part MW) preserves T3 and passes every self check - or sets ms_bad -
+   for: every step of an unsuspended thread INCLUDING the inline extension (the
+   coupling at the growth step: the SameFile changers of the other counters go
+   CStore -> IvLoad, the own thread to GIvLoad, the base view keeps CIb), the
+   nested head load, the nested loop control (next counter / second loop /
+   close), and the nested close (the coupling back: GClose -> LCas, the SameFile
+   changers CClose -> Done, the base activity resumes).
+   MISSING for the full statement: (1) the visit step inside the nested walk
+   (m_pc = MRun while suspended: excluded by hypothesis here; the step lemmas
+   stepI / stepR2 / stepG / llook2_prev2 it needs are proved); (2) the assembly
+   over the thread list (GI3: stability of T3 under other threads' steps, one
+   linker per counter - as GI2_step of CounterMultiCtl2 with T3 in place of CI).
+   Until then the general theorems keep the hypothesis ms_chk = false. *)
+Theorem C03_multi_thread_step_partial3 : forall ms t ms' t', CounterMultiCtl2.MW ms -> CounterMultiCtl3.T3 ms t ->
+  (CounterMultiCtl3.susp t = true -> m_pc t <> MRun) ->
+  mstep_core ms t = (ms', t') -> CounterMultiCtl3.step3 ms t ms' t'.
+Proof. exact CounterMultiCtl3.thread_step_partial3. Qed.
+Print Assumptions C03_multi_thread_step_partial3.
 
 From Coq Require Import Arith Lia.
 (* Non-vacuity: the hypotheses hold of the initial state of the registration-race
